@@ -31,3 +31,4 @@ def run(ck):
     status.r_same_storage_needs_same_stride(ck, P, 'C02-R22')
     codec.r15_alphaless_fetchers_force_alpha(ck, P, 'C02-R23')  # the implementations' scanline readers agree on the alpha of alpha-less formats
     status.r_wide_only_properties_reach_the_flags(ck, P)
+    sampling.r18_rotation_tiles(ck, P, 'C02-R25')        # the tiled C rotation fast paths against the general path
